@@ -1,5 +1,7 @@
 """C06 Oversize and malformed input is refused totally: error response, close, no crash."""
-from harness import common, framing, streams
+import time
+
+from harness import common, framing, streams, rxambig
 from wsx.core import E, PathAbort
 from wsx.data import SymBytes
 
@@ -8,22 +10,24 @@ BUDGET = {"quick": 900, "thorough": 3000}
 namespaces = common.namespaces
 real_namespace = common.real_namespace
 OPAQUE_INTS = True
-GOALS = ["refused 431", "refused 413", "refused 400", "refused 501", "oversize head without terminator refused",
+GOALS = ["patterns analysed for ambiguous repetition", "refused 431", "refused 413", "refused 400", "refused 501", "oversize head without terminator refused",
          "chunked body refused at the limit", "request below both limits delivered", "closing connection probed"]
 ASSUMPTIONS = [
     "limits are symbolic integers: max_request_header_size in [1, 4096], max_request_body_size in [1, 4096] (digit-run family: defaults)",
     "numbers rendered into error-message bodies are replaced by a placeholder (formatting is not the subject); bodies are not compared",
     "where the property fixes no accounting convention (leading blank lines, framing vs data bytes of a chunked body) either verdict is accepted",
 ]
-STUBS = ["as C01"]
+STUBS = ["as C01", "AMBIG: z3 regular-expression theory over the sre parse tree of the real pattern objects (wsx/rx.py)"]
 LIM = 4096
 
 
 def BOUNDS(tier):
     return ("symbolic limits x { 1-byte window at every position of %d skeletons; unterminated heads of 1..40 bytes with a 1-byte window; "
             "all byte strings of length <= %d in each chunked-decoder phase; Content-Length / chunk-size digit runs of lengths "
-            "1, 19, 20, 4299, 4300, 4301, 5000 (thorough: also 70000) with symbolic first and last digit }, each also with one symbolic cut (two reads)."
-            % (len(SKEL), 4 if tier == "quick" else 6))
+            "1, 19, 20, 4299, 4300, 4301, 5000 (thorough: also 70000) with symbolic first and last digit }, each also with one symbolic cut (two reads).  "
+            "AMBIG (no length bound): every repeat with an unbounded or >= 8 upper count over a group, in every compiled pattern of rfc7230 / parser / "
+            "receiver / utilities / proxy_headers / task: no text is one iteration and also several (L(R) & L(R R+) empty) and no two branches of an "
+            "alternation below it match the same text; polynomial blow-ups are outside this check." % (len(SKEL), 4 if tier == "quick" else 6))
 
 
 SKEL = ("get11", "pct", "expect", "cl_pipe", "chunk1", "chunk_ext_tr", "cl_te", "obsfold", "lead_crlf", "pipe3")
@@ -54,7 +58,46 @@ def jobs(tier):
         for j in streams.f1_jobs(("get11", "cl_pipe", "chunk1", "pct"), 2, per_job=3):
             j["limits"] = "sym"
             js.append(j)
+    js.append(dict(name="AMBIG:patterns", custom=True, family="AMBIG"))
     return js
+
+
+def run_custom(job, tier, deadline, known_ids):
+    """'never hang': no repeated group of a pattern used on the request path can match the same text in two ways (see harness/rxambig.py)"""
+    from wsx.runner import enc
+    W, P = namespaces()
+    res = dict(stats=dict(paths=0, aborted=0, decisions=0, forks=0, solver_calls=0, solver_time=0.0, unknown=0), violations=[],
+               unsupported=[], goals={}, samples=[], concolic=0, mismatches=[], extra={})
+    seen = set()
+    analysed = []
+    for (mod, var), pat in rxambig.patterns(W).items():
+        if id(pat) in seen:
+            continue
+        seen.add(id(pat))
+        t = time.time()
+        try:
+            nq, finds, unknown = rxambig.analyse(pat)
+        except Exception as e:  # noqa
+            res["unsupported"].append("pattern %s.%s cannot be translated: %r" % (mod, var, e))
+            continue
+        res["stats"]["solver_calls"] += nq
+        res["stats"]["solver_time"] += time.time() - t
+        res["stats"]["paths"] += 1
+        res["stats"]["decisions"] += nq
+        analysed.append("%s.%s (%d queries)" % (mod, var, nq))
+        for u in unknown:
+            res["stats"]["unknown"] += 1
+            res["unsupported"].append("z3 unknown on %s.%s %s" % (mod, var, u))
+        for f in finds:
+            res["violations"].append(dict(
+                label="pattern %s.%s: a repeated group matches %r in more than one way (%s, %s): exponential backtracking" % (
+                    mod, var, f["witness"], f["kind"], f["where"]),
+                inputs=enc(dict(kind="AMBIG", mod=mod, var=var, witness=f["witness"], lead=f["lead"], which=f["kind"])), detail=repr(f["witness"])))
+    if analysed:
+        res["goals"]["patterns analysed for ambiguous repetition"] = 1
+    res["samples"].append(dict(job=job["name"], inputs=dict(kind="AMBIG", patterns=analysed), observation="no ambiguous repeated group"))
+    res["nviol"] = len(res["violations"])
+    return res
 
 
 def make_inputs(job):
@@ -95,6 +138,10 @@ def make_inputs(job):
 
 
 def scenario(ns, inputs):
+    if inputs.get("kind") == "AMBIG":
+        pat = getattr(getattr(ns, inputs["mod"]), inputs["var"])
+        pat = getattr(pat, "real", pat)
+        return dict(times=rxambig.measure(pat, inputs["lead"], inputs["witness"]))
     s = inputs["stream"]
     pieces = [s] if not inputs["cut"] else [s[:inputs["cut"]], s[inputs["cut"]:]]
     return framing.impl_events(ns, pieces, adj_kw=dict(max_request_header_size=inputs["max_header"], max_request_body_size=inputs["max_body"]),
@@ -102,15 +149,21 @@ def scenario(ns, inputs):
 
 
 def oracle(inputs, obs):
+    if inputs.get("kind") == "AMBIG":
+        return [("matching %s.%s on lead + %r * k + NUL does not take geometrically growing time (measured %s)" % (
+            inputs["mod"], inputs["var"], inputs["witness"], [(k, round(t, 4)) for k, t in obs["times"]][-4:]), not rxambig.geometric(obs["times"]))]
     ref = framing.reference(inputs["stream"], max_header=inputs["max_header"], max_body=inputs["max_body"], strict_target_ctl=True)
     return framing.compare(obs, ref) + framing.compare_refusal(obs)
 
 
-normalize = framing.norm_obs
+def normalize(obs):
+    return "times" if "times" in obs else framing.norm_obs(obs)
 
 
 def goals(cin, cobs):
     out = []
+    if "times" in cobs:
+        return out
     ev = cobs["events"]
     for e in ev:
         if e[0] == "err":
